@@ -49,8 +49,17 @@ type dcell struct {
 	typ    types.Type
 }
 
+// CallRec is one call made on a path, with its symbolic arguments.
+type CallRec struct {
+	Callee string
+	Args   []*Sym
+	Kind   string // "", "defer", "go"
+	Result *Sym
+}
+
 // Leaf is one path of the function.
 type Leaf struct {
+	Recs    []CallRec
 	Assign  []string // "atom=value" in the order decided
 	AssignM map[string]string
 	Returns []*Sym
@@ -83,6 +92,7 @@ type dstate struct {
 	assign map[string]string
 	order  []string
 	calls  []string
+	recs   []CallRec
 	ncall  map[string]int
 	blocks []int
 }
@@ -114,6 +124,7 @@ func (st *dstate) clone() *dstate {
 	}
 	n.order = append([]string{}, st.order...)
 	n.calls = append([]string{}, st.calls...)
+	n.recs = append([]CallRec{}, st.recs...)
 	for k, v := range st.ncall {
 		n.ncall[k] = v
 	}
@@ -154,10 +165,11 @@ func DecisionTree(fn *ssa.Function, cfg DTConfig) []*Leaf {
 	}
 	for _, fv := range fn.FreeVars {
 		// a free variable is the address of a captured variable
-		c := &dcell{id: fv.Name(), typ: fv.Type(), fields: map[string]*Sym{}}
-		c.whole = &Sym{K: "param", S: d.name(fv, fv.Name()), T: deref(fv.Type())}
+		nm := d.name(fv, fv.Name())
+		c := &dcell{id: nm, typ: fv.Type(), fields: map[string]*Sym{}}
+		c.whole = &Sym{K: "param", S: nm, T: deref(fv.Type())}
 		st.cells[fv] = c
-		st.env[fv] = &Sym{K: "ptr", S: "&" + fv.Name(), Cell: c}
+		st.env[fv] = &Sym{K: "ptr", S: "&" + nm, Cell: c}
 	}
 	d.run(st, fn.Blocks[0], nil)
 	return d.leaves
@@ -184,6 +196,7 @@ func (d *dtree) leaf(st *dstate, l *Leaf) {
 		l.AssignM[k] = v
 	}
 	l.Calls = append([]string{}, st.calls...)
+	l.Recs = append([]CallRec{}, st.recs...)
 	l.Blocks = append([]int{}, st.blocks...)
 	d.leaves = append(d.leaves, l)
 }
@@ -284,9 +297,15 @@ func (d *dtree) exec(st *dstate, in ssa.Instruction, b *ssa.BasicBlock) bool {
 		d.store(st, addr, val)
 	case *ssa.DebugRef, *ssa.RunDefers:
 	case *ssa.Defer:
-		st.calls = append(st.calls, "defer "+d.callText(st, x.Common()))
+		t, rec := d.callRec(st, x.Common())
+		rec.Kind = "defer"
+		st.recs = append(st.recs, rec)
+		st.calls = append(st.calls, "defer "+t)
 	case *ssa.Go:
-		st.calls = append(st.calls, "go "+d.callText(st, x.Common()))
+		t, rec := d.callRec(st, x.Common())
+		rec.Kind = "go"
+		st.recs = append(st.recs, rec)
+		st.calls = append(st.calls, "go "+t)
 	case *ssa.MapUpdate:
 		st.calls = append(st.calls, fmt.Sprintf("mapupdate %s[%s]=%s", d.eval(st, x.Map), d.eval(st, x.Key), d.eval(st, x.Value)))
 	case *ssa.Send:
@@ -376,6 +395,10 @@ func (d *dtree) store(st *dstate, addr, val *Sym) {
 	if path == "" {
 		addr.Cell.whole = val
 		addr.Cell.fields = map[string]*Sym{}
+		if !strings.HasPrefix(addr.Cell.id, "cell:") {
+			st.calls = append(st.calls, fmt.Sprintf("store %s=%s", addr.Cell.id, val))
+			st.recs = append(st.recs, CallRec{Callee: "store " + addr.Cell.id, Args: []*Sym{val}})
+		}
 		return
 	}
 	// drop overrides below this path
@@ -517,9 +540,17 @@ func (d *dtree) eval(st *dstate, v ssa.Value) *Sym {
 }
 
 func (d *dtree) callText(st *dstate, cc *ssa.CallCommon) string {
+	t, _ := d.callRec(st, cc)
+	return t
+}
+
+func (d *dtree) callRec(st *dstate, cc *ssa.CallCommon) (string, CallRec) {
 	var args []string
+	var rec CallRec
 	for _, a := range cc.Args {
-		args = append(args, d.describe(st, d.eval(st, a)).S)
+		sy := d.describe(st, d.eval(st, a))
+		rec.Args = append(rec.Args, sy)
+		args = append(args, sy.S)
 	}
 	var callee string
 	if cc.IsInvoke() {
@@ -536,21 +567,24 @@ func (d *dtree) callText(st *dstate, cc *ssa.CallCommon) string {
 			callee = d.eval(st, cc.Value).S
 		}
 	}
-	return callee + "(" + strings.Join(args, ", ") + ")"
+	rec.Callee = callee
+	return callee + "(" + strings.Join(args, ", ") + ")", rec
 }
 
 func (d *dtree) evalInstr(st *dstate, v ssa.Value) *Sym {
 	switch x := v.(type) {
 	case *ssa.Call:
-		txt := d.callText(st, &x.Call)
+		txt, rec := d.callRec(st, &x.Call)
 		st.ncall[txt]++
 		name := "call " + txt
 		if n := st.ncall[txt]; n > 1 {
 			name = fmt.Sprintf("call#%d %s", n, txt)
 		}
 		st.calls = append(st.calls, txt)
-		// len of a known thing stays symbolic
-		return &Sym{K: "atom", S: name, T: x.Type()}
+		res := &Sym{K: "atom", S: name, T: x.Type()}
+		rec.Result = res
+		st.recs = append(st.recs, rec)
+		return res
 	case *ssa.UnOp:
 		o := d.eval(st, x.X)
 		switch x.Op {
